@@ -1,100 +1,197 @@
 (* C20 — snapshot archives: exact round trip, corruption always detected.
-   Theorems only; each closed by an application of a lemma of Archive/Proofs.v. *)
-From Verif Require Import Base.Prelude Archive.Model Archive.Proofs Archive.Instance.
+   Theorems only; each closed by an application of a lemma of Archive/Proofs.v or Archive/Decide.v.
+   The hypotheses each theorem really needs are the ones passed in its proof line. *)
+From Verif Require Import Base.Prelude Archive.Model Archive.Proofs Archive.Decide Archive.Instance.
 
 Section C20.
   Context {digest : Type} (deqb : digest -> digest -> bool) (H : bytes -> digest).
   Context {Meta : Type} (meta0 : Meta) (enc_meta : Meta -> bytes)
           (dec_meta : Meta -> bytes -> option Meta).
   Context (print_sums : list (digest * string) -> bytes)
-          (parse_sums : bytes -> list (option (digest * string))).
-  (* assumed of the external pieces (SHA-256, encoding/json, bufio+Sscanf) *)
+          (parse_sums : bytes -> list (option (digest * string)))
+          (scan_err : bytes -> bool).
+  (* assumed of the external pieces (SHA-256, encoding/json, bufio.Scanner+fmt.Sscanf);
+     each is also tested directly against the Go standard library on every run of the check *)
   Hypothesis deqb_spec : forall a b, deqb a b = true <-> a = b.
   Hypothesis H_inj : forall a b, H a = H b -> a = b.
   Hypothesis dec_enc : forall m, dec_meta meta0 (enc_meta m) = Some m.
   Hypothesis dec_empty : forall m, dec_meta m [] = None.
   Hypothesis enc_nonempty : forall m, enc_meta m <> [].
-  Hypothesis parse_print : forall l, parse_sums (print_sums l) = map Some l.
+  Hypothesis dec_pieces : forall m a b c md md',
+    a ++ b ++ c = enc_meta m -> a <> [] -> b <> [] ->
+    dec_meta md a = None \/ dec_meta md' b = None.
+  Hypothesis parse_print : forall ord m s,
+    parse_sums (print_sums (sums_lines H enc_meta ord m s)) = map Some (sums_lines H enc_meta ord m s).
+  Hypothesis scan_print : forall ord m s,
+    scan_err (print_sums (sums_lines H enc_meta ord m s)) = false.
   Hypothesis parse_empty : parse_sums [] = [].
 
-  Notation read := (read deqb H meta0 dec_meta parse_sums).
+  Notation read := (read deqb H meta0 dec_meta parse_sums scan_err).
+  Notation read_gz := (read_gz deqb H meta0 dec_meta parse_sums scan_err).
   Notation write := (write H enc_meta print_sums).
 
-  (* Saving and reading back yields the same state bytes and metadata. *)
+  (* ---- (a) saving and reading back yields the same state bytes and metadata ---- *)
   Theorem C20_roundtrip : forall ord m s, read (write ord m s) true = Ok (m, s).
-  Proof. exact (roundtrip deqb H meta0 enc_meta dec_meta print_sums parse_sums deqb_spec dec_enc parse_print). Qed.
+  Proof. exact (roundtrip deqb H meta0 enc_meta dec_meta print_sums parse_sums scan_err deqb_spec dec_enc parse_print scan_print). Qed.
 
-  (* Any single corruption of a written archive is rejected, or extracts exactly the original. *)
+  (* ---- any single corruption of a written archive is rejected, or extracts exactly the original ---- *)
   Theorem C20_tamper : forall ord m s L' t' r,
     corrupt (write ord m s) L' t' -> read L' t' = Ok r -> r = (m, s).
-  Proof. exact (tamper deqb H meta0 enc_meta dec_meta print_sums parse_sums deqb_spec H_inj dec_enc dec_empty enc_nonempty parse_print parse_empty). Qed.
+  Proof. exact (tamper deqb H meta0 enc_meta dec_meta print_sums parse_sums scan_err deqb_spec H_inj dec_enc dec_empty parse_print parse_empty). Qed.
 
-  (* Altered state or metadata bytes are always rejected. *)
+  (* ---- (b) altered state or metadata bytes are always rejected ---- *)
   Theorem C20_payload_change_rejected : forall ord m s pre mb post d t r,
     write ord m s = pre ++ mb :: post -> m_name mb <> n_sums -> d <> m_data mb ->
     read (pre ++ Member (m_name mb) d true :: post) t = Ok r -> False.
-  Proof. exact (payload_change_rejected deqb H meta0 enc_meta dec_meta print_sums parse_sums deqb_spec H_inj parse_print). Qed.
+  Proof. exact (payload_change_rejected deqb H meta0 enc_meta dec_meta print_sums parse_sums scan_err deqb_spec H_inj parse_print). Qed.
 
-  (* For EVERY member list: acceptance with untouched checksums means untouched payload. *)
+  (* for EVERY member list (members cut, repeated, reordered at will): acceptance with the written
+     checksum bytes means the original state bytes AND the original decoded metadata *)
   Theorem C20_accept_sound : forall ord m s L t m' s',
     cat n_sums L = print_sums (sums_lines H enc_meta ord m s) ->
-    read L t = Ok (m', s') -> s' = s /\ cat n_state L = s /\ cat n_meta L = enc_meta m.
-  Proof. exact (sums_intact_sound deqb H meta0 enc_meta dec_meta print_sums parse_sums deqb_spec H_inj parse_print). Qed.
+    read L t = Ok (m', s') ->
+    m' = m /\ s' = s /\ cat n_state L = s /\ cat n_meta L = enc_meta m.
+  Proof. exact (accept_sound deqb H meta0 enc_meta dec_meta print_sums parse_sums scan_err deqb_spec H_inj dec_enc dec_empty enc_nonempty dec_pieces parse_print). Qed.
 
-  Theorem C20_unexpected_member_rejected : forall L t r,
-    (exists mb, In mb L /\ ~ expected (m_name mb)) -> read L t = Ok r -> False.
-  Proof. exact (unexpected_member_rejected deqb H meta0 dec_meta parse_sums deqb_spec). Qed.
+  (* for EVERY member list: a recorded checksum that is not the hash of the member's bytes *)
+  Theorem C20_wrong_meta_checksum_rejected : forall L t r d,
+    In (Some (d, n_meta)) (parse_sums (cat n_sums L)) -> d <> H (cat n_meta L) -> read L t = Ok r -> False.
+  Proof. exact (wrong_meta_sum_rejected deqb H meta0 dec_meta parse_sums scan_err deqb_spec). Qed.
 
+  Theorem C20_wrong_state_checksum_rejected : forall L t r d,
+    In (Some (d, n_state)) (parse_sums (cat n_sums L)) -> d <> H (cat n_state L) -> read L t = Ok r -> False.
+  Proof. exact (wrong_state_sum_rejected deqb H meta0 dec_meta parse_sums scan_err deqb_spec). Qed.
+
+  (* ---- (c) cut short before the last member is complete: every member list ---- *)
   Theorem C20_cut_short_rejected : forall L r, read L false = Ok r -> False.
-  Proof. exact (incomplete_rejected deqb H meta0 dec_meta parse_sums deqb_spec). Qed.
+  Proof. exact (incomplete_rejected deqb H meta0 dec_meta parse_sums scan_err deqb_spec). Qed.
 
   Theorem C20_damaged_member_rejected : forall L t r,
     (exists mb, In mb L /\ m_intact mb = false) -> read L t = Ok r -> False.
-  Proof. exact (damaged_member_rejected deqb H meta0 dec_meta parse_sums deqb_spec). Qed.
+  Proof. exact (damaged_member_rejected deqb H meta0 dec_meta parse_sums scan_err deqb_spec). Qed.
 
-  Theorem C20_missing_sums_rejected : forall m s t r,
-    read [Member n_meta (enc_meta m) true; Member n_state s true] t = Ok r -> False.
-  Proof. exact (missing_sums_rejected deqb H meta0 enc_meta dec_meta parse_sums deqb_spec parse_empty). Qed.
+  (* a written archive that stops, even cleanly between two members, before its last member *)
+  Theorem C20_clean_cut_rejected : forall ord m s pre post t r,
+    write ord m s = pre ++ post -> post <> [] -> read pre t = Ok r -> False.
+  Proof. exact (clean_cut_rejected deqb H meta0 enc_meta dec_meta print_sums parse_sums scan_err deqb_spec parse_empty). Qed.
 
-  Theorem C20_missing_meta_rejected : forall ord m s t r,
-    read [Member n_state s true; Member n_sums (print_sums (sums_lines H enc_meta ord m s)) true] t
-      = Ok r -> False.
-  Proof. exact (missing_meta_rejected deqb H meta0 enc_meta dec_meta print_sums parse_sums deqb_spec H_inj enc_nonempty parse_print). Qed.
+  (* ---- (d) lacks a member: for EVERY member list and terminator ---- *)
+  Theorem C20_lacks_meta_rejected : forall L t r, datas n_meta L = [] -> read L t = Ok r -> False.
+  Proof. exact (no_meta_rejected deqb H meta0 dec_meta parse_sums scan_err deqb_spec). Qed.
 
-  (* "lacks a member": state.bin too, whatever the state (the empty state included: all its hashes
-     match, and it is refused because the member never appeared -- the defect recorded as fixed in
-     known_findings.json) *)
-  Theorem C20_missing_state_rejected : forall ord m s t r,
-    read [Member n_meta (enc_meta m) true; Member n_sums (print_sums (sums_lines H enc_meta ord m s)) true] t
-      = Ok r -> False.
-  Proof. exact (missing_state_rejected deqb H meta0 enc_meta dec_meta print_sums parse_sums deqb_spec). Qed.
+  Theorem C20_lacks_state_rejected : forall L t r, datas n_state L = [] -> read L t = Ok r -> False.
+  Proof. exact (no_state_rejected deqb H meta0 dec_meta parse_sums scan_err deqb_spec). Qed.
+
+  Theorem C20_lacks_sums_member_rejected : forall L t r, datas n_sums L = [] -> read L t = Ok r -> False.
+  Proof. exact (no_sums_member_rejected deqb H meta0 dec_meta parse_sums scan_err deqb_spec parse_empty). Qed.
+
+  (* whichever member of a written archive is removed (the state.bin of an EMPTY state included:
+     all its hashes match, it is refused because the member never appeared -- the defect recorded
+     as fixed, 782406e, in known_findings.json) *)
+  Theorem C20_remove_rejected : forall ord m s pre mb post t r,
+    write ord m s = pre ++ mb :: post -> read (pre ++ post) t = Ok r -> False.
+  Proof. exact (remove_rejected deqb H meta0 enc_meta dec_meta print_sums parse_sums scan_err deqb_spec parse_empty). Qed.
 
   Theorem C20_missing_state_empty_refused : forall ord m,
     read [Member n_meta (enc_meta m) true; Member n_sums (print_sums (sums_lines H enc_meta ord m [])) true] true
       = Err ENotInArchive.
-  Proof. exact (missing_state_empty_refused deqb H meta0 enc_meta dec_meta print_sums parse_sums deqb_spec dec_enc parse_print). Qed.
+  Proof. exact (missing_state_empty_refused deqb H meta0 enc_meta dec_meta print_sums parse_sums scan_err deqb_spec dec_enc parse_print scan_print). Qed.
 
+  (* ---- (e) lacks its checksum: for EVERY member list and terminator ---- *)
+  (* the checksum bytes are empty (member absent, or present and empty) *)
+  Theorem C20_lacks_sums_rejected : forall L t r, cat n_sums L = [] -> read L t = Ok r -> False.
+  Proof. exact (no_sums_rejected deqb H meta0 dec_meta parse_sums scan_err deqb_spec parse_empty). Qed.
+
+  (* no parsed checksum line names the member *)
+  Theorem C20_lacks_meta_checksum_rejected : forall L t r,
+    (forall d, ~ In (Some (d, n_meta)) (parse_sums (cat n_sums L))) -> read L t = Ok r -> False.
+  Proof. exact (no_meta_line_rejected deqb H meta0 dec_meta parse_sums scan_err deqb_spec). Qed.
+
+  Theorem C20_lacks_state_checksum_rejected : forall L t r,
+    (forall d, ~ In (Some (d, n_state)) (parse_sums (cat n_sums L))) -> read L t = Ok r -> False.
+  Proof. exact (no_state_line_rejected deqb H meta0 dec_meta parse_sums scan_err deqb_spec). Qed.
+
+  (* ---- (f) an unexpected member: every member list ---- *)
+  Theorem C20_unexpected_member_rejected : forall L t r,
+    (exists mb, In mb L /\ ~ expected (m_name mb)) -> read L t = Ok r -> False.
+  Proof. exact (unexpected_member_rejected deqb H meta0 dec_meta parse_sums scan_err deqb_spec). Qed.
+
+  (* a member of a written archive renamed to ANY other name (the three expected ones included) *)
+  Theorem C20_rename_rejected : forall ord m s pre mb post n' t r,
+    write ord m s = pre ++ mb :: post -> n' <> m_name mb ->
+    read (pre ++ Member n' (m_data mb) true :: post) t = Ok r -> False.
+  Proof. exact (rename_rejected deqb H meta0 enc_meta dec_meta print_sums parse_sums scan_err deqb_spec parse_empty). Qed.
+
+  (* LIMIT made explicit: an injected member with an EXPECTED name (a second SHA256SUMS, an empty
+     extra state.bin, a state.bin that is not a regular file) may be accepted; what is extracted is
+     then exactly the original (Instance.ex_corrupt_accepted_* are accepted instances) *)
+  Theorem C20_expected_extra_member_same_extraction : forall ord m s x L' r,
+    inserted x (write ord m s) L' -> expected (m_name x) -> read L' true = Ok r -> r = (m, s).
+  Proof. exact (expected_extra_member_same_extraction deqb H meta0 enc_meta dec_meta print_sums parse_sums scan_err deqb_spec H_inj dec_enc dec_empty parse_print parse_empty). Qed.
+
+  (* ---- bytes to members: the decidable test Run/C20.v evaluates on every enumerated fault ---- *)
+  (* plain tar: the damaged view is one [corrupt] step from the view of the intact archive *)
+  Theorem C20_enumerated_fault_sound : forall ord m s L' t r,
+    corruptb (write ord m s) L' t = true -> read L' t = Ok r -> r = (m, s).
+  Proof. exact (corruptb_tamper deqb H meta0 enc_meta dec_meta print_sums parse_sums scan_err deqb_spec H_inj dec_enc dec_empty parse_print parse_empty). Qed.
+
+  (* gzip-wrapped: header refused, trailer wrong, stream cut, a member cut, or as above *)
+  Theorem C20_enumerated_gzip_fault_sound : forall ord m s hdr L' t tr r,
+    faultb (write ord m s) hdr L' t tr = true -> read_gz hdr L' t tr = Ok r -> r = (m, s).
+  Proof. exact (faultb_sound deqb H meta0 enc_meta dec_meta print_sums parse_sums scan_err deqb_spec H_inj dec_enc dec_empty parse_print parse_empty). Qed.
+
+  (* ---- (g) restore is fed only what the reader accepted ---- *)
   Theorem C20_verify_before_restore : forall hdr L t tr r,
-    restore deqb H meta0 dec_meta parse_sums hdr L t tr = Some r ->
+    restore deqb H meta0 dec_meta parse_sums scan_err hdr L t tr = Some r ->
     hdr = true /\ tr = true /\ read L t = Ok r.
-  Proof. exact (verify_before_restore deqb H meta0 dec_meta parse_sums). Qed.
+  Proof. exact (verify_before_restore deqb H meta0 dec_meta parse_sums scan_err). Qed.
 End C20.
 
-(* Non-vacuity: the hypotheses are satisfied by a concrete instance, on which the theorems compute. *)
-Theorem C20_hypotheses_satisfiable : forall ord m s L' t' r,
-  corrupt (iwrite ord m s) L' t' -> iread L' t' = Ok r -> r = (m, s).
-Proof. exact instance_tamper. Qed.
+(* the decidable test is sound for the corruption relation, and the intact view passes it *)
+Theorem C20_corruptb_sound : forall L L' t, corruptb L L' t = true -> corrupt L L' t.
+Proof. exact corruptb_sound. Qed.
+
+(* Non-vacuity: every Section hypothesis is satisfied by one concrete instance (C20_accept_sound
+   uses all of them but scan_print, C20_roundtrip uses scan_print), on which the theorems compute. *)
+Theorem C20_hypotheses_satisfiable : forall ord m s L t m' s',
+  cat n_sums L = iprint (sums_lines iH ienc ord m s) ->
+  iread L t = Ok (m', s') -> m' = m /\ s' = s /\ cat n_state L = s /\ cat n_meta L = ienc m.
+Proof. exact instance_accept_sound. Qed.
+
+Theorem C20_hypotheses_satisfiable_roundtrip : forall ord m s, iread (iwrite ord m s) true = Ok (m, s).
+Proof. exact instance_roundtrip. Qed.
+
+(* The non-trivial branch of C20_tamper is inhabited: a corrupted archive (an empty state.bin
+   injected) that differs from the written one, IS accepted, and extracts the original. *)
+Theorem C20_corrupt_accepted_example :
+  corrupt (iwrite true ex_m ex_s) ex_inj_state true /\ ex_inj_state <> iwrite true ex_m ex_s /\
+  iread ex_inj_state true = Ok (ex_m, ex_s).
+Proof. exact ex_corrupt_accepted_inject_state. Qed.
 
 Print Assumptions C20_roundtrip.
 Print Assumptions C20_tamper.
 Print Assumptions C20_payload_change_rejected.
 Print Assumptions C20_accept_sound.
-Print Assumptions C20_unexpected_member_rejected.
+Print Assumptions C20_wrong_meta_checksum_rejected.
+Print Assumptions C20_wrong_state_checksum_rejected.
 Print Assumptions C20_cut_short_rejected.
 Print Assumptions C20_damaged_member_rejected.
-Print Assumptions C20_missing_sums_rejected.
-Print Assumptions C20_missing_meta_rejected.
-Print Assumptions C20_missing_state_rejected.
+Print Assumptions C20_clean_cut_rejected.
+Print Assumptions C20_lacks_meta_rejected.
+Print Assumptions C20_lacks_state_rejected.
+Print Assumptions C20_lacks_sums_member_rejected.
+Print Assumptions C20_remove_rejected.
 Print Assumptions C20_missing_state_empty_refused.
+Print Assumptions C20_lacks_sums_rejected.
+Print Assumptions C20_lacks_meta_checksum_rejected.
+Print Assumptions C20_lacks_state_checksum_rejected.
+Print Assumptions C20_unexpected_member_rejected.
+Print Assumptions C20_rename_rejected.
+Print Assumptions C20_expected_extra_member_same_extraction.
+Print Assumptions C20_enumerated_fault_sound.
+Print Assumptions C20_enumerated_gzip_fault_sound.
 Print Assumptions C20_verify_before_restore.
+Print Assumptions C20_corruptb_sound.
 Print Assumptions C20_hypotheses_satisfiable.
+Print Assumptions C20_hypotheses_satisfiable_roundtrip.
+Print Assumptions C20_corrupt_accepted_example.
